@@ -26,7 +26,7 @@ EXTRA = [dict(kind=k, retries=0, roe=False, roi=False, tid0=0,
 
 
 def suites(tier):
-    return S.client_suites(tier, "chk_c08", extra=EXTRA)
+    return S.client_suites(tier, "chk_c08", extra=EXTRA + S.foreign_then_own_specs())
 
 
 def classify(suite, desc):
@@ -38,6 +38,8 @@ def replay_finding(f):
     spec = dict(w)
     spec["txs"] = [dict(req=t["req"], unit=t["unit"], script=[(b, p) for b, p in t.get("script", [])]) for t in w["txs"]]
     c = S.make_case(spec, "replay")
+    if f.get("status") == "fixed":
+        return bool(S.failing_txns("C08", c.desc))       # the witness must pass from now on
     return S.classify_case("C08", c.desc) == f["id"]
 
 
